@@ -28,4 +28,7 @@ SUBS = [Sub("histories", run, kind="machine", machine=machine, budget=(120, 3000
 SUBS.append(Sub("equal-size-scripts", run, kind="enum", enumerate=lambda tier: container.scripted_cases(), shards=(8, 16),
                 rule="24 orders of equally sized blocks of different types (8 bytes each) x table lengths {3,4,14} x 8 short scripts (remove first / middle, "
                      "same-size replace, reopen); finite, enumerated"))
+SUBS.append(Sub("fill-level-scripts", run, kind="enum", enumerate=lambda tier: container.fill_level_cases(), shards=(8, 16),
+                rule="every table length 1..18, 20, 32 x fill levels {full-2, full-1, full} (all live blocks of distinct types: nine writable, seven undecodable) x 3 type orders x "
+                     "scripts (add / set an absent type, replace / set / same-size-replace present ones, remove first then add); finite, enumerated", nontrivial_required=False))
 TIME_BUDGET = {"quick": 150, "thorough": 1500}
